@@ -27,6 +27,7 @@ import (
 
 	hio "github.com/hprose/hprose-golang/v3/io"
 	"github.com/hprose/hprose-golang/v3/rpc/core"
+	"github.com/hprose/hprose-golang/v3/rpc/plugins/reverse"
 	"verif/lib/report"
 	"verif/lib/shard"
 	"verif/mc/gen"
@@ -860,6 +861,20 @@ func runJob(j job, thorough bool) (res result) {
 	}
 	defer e.close()
 	res.Stack = stackProbe(e)
+	if j.Transport == "mock" && !j.CSimple && !j.SSimple && !j.NoMissing {
+		vs, n := reverseProbe(e)
+		if dbg := os.Getenv("C08_REVERSE_LOG"); dbg != "" {
+			os.WriteFile(dbg, []byte(fmt.Sprintf("reverse probe: %d cases, %d violations %v\n", n, len(vs), vs)), 0o644)
+		}
+		res.Cases += n
+		for _, w := range vs {
+			res.Viol = append(res.Viol, viol{Job: j, Fn: "reverse", Spelling: "exact", Mode: "reverse-provider", Cell: "nil-arg", Kind: "reverse-call-differs-from-local-call", What: w})
+			if res.ViolCount == nil {
+				res.ViolCount = map[string]int64{}
+			}
+			res.ViolCount["nil-arg|reverse-call-differs-from-local-call|reverse"]++
+		}
+	}
 	tp := params(thorough)
 	distinct := map[string]bool{}
 	reported := map[string]int{}
@@ -977,6 +992,72 @@ func runJob(j job, thorough bool) (res result) {
 	sort.Strings(res.SkippedVals)
 	if e.lab.Pool != nil {
 		res.PoolTasks = e.lab.Pool.Count()
+	}
+	return
+}
+
+// reverseProbe: the same published functions, reached the other way round: a reverse.Provider publishes them on
+// the client, a reverse.Caller on the service invokes them through the provider's poll. Only the cells that
+// matter for this entry point: nil for interface, pointer, variadic and context-taking parameters, against the
+// local call.
+func reverseProbe(e *env) (viols []string, cases int64) {
+	caller := reverse.NewCaller(e.svc)
+	caller.Timeout = 10 * time.Second
+	prov := reverse.NewProvider(e.lab.Client(e.j.Transport), "prov")
+	prov.Debug = os.Getenv("C08_REVERSE_LOG") != ""
+	type probe struct {
+		name string
+		f    interface{}
+		args []interface{}
+		ret  reflect.Type
+	}
+	probes := []probe{
+		{"IfaceIn", IfaceIn, []interface{}{nil}, tStr},
+		{"IfaceIn", IfaceIn, []interface{}{7}, tStr},
+		{"IfaceVar", IfaceVar, []interface{}{nil, 1, nil}, reflect.TypeOf(0)},
+		{"CtxPair", CtxPair, []interface{}{nil, 7}, tStr},
+		{"CtxLast", CtxLast, []interface{}{7, nil}, tStr},
+		{"CtxPtr", CtxPtr, []interface{}{nil, nil, nil}, tStr},
+		{"Greet", Greet, []interface{}{"x"}, tStr},
+	}
+	for _, p := range probes {
+		prov.AddFunction(p.f, p.name)
+	}
+	go prov.Listen()
+	defer prov.Close()
+	for _, p := range probes {
+		takeRecs()
+		fv := reflect.ValueOf(p.f)
+		ft := fv.Type()
+		var in []reflect.Value
+		k := 0
+		if ft.NumIn() > 0 && ft.In(0) == tCtx {
+			in = append(in, reflect.ValueOf(context.Background()))
+			k = 1
+		}
+		for i, a := range p.args {
+			pt := ft.In(min(k+i, ft.NumIn()-1))
+			if ft.IsVariadic() && k+i >= ft.NumIn()-1 {
+				pt = pt.Elem()
+			}
+			v := reflect.New(pt).Elem()
+			if a != nil {
+				v.Set(reflect.ValueOf(a))
+			}
+			in = append(in, v)
+		}
+		want := fmt.Sprint(fv.Call(in)[0].Interface())
+		takeRecs()
+		r, err := caller.Invoke("prov", p.name, p.args, p.ret)
+		takeRecs()
+		cases++
+		got := ""
+		if len(r) > 0 {
+			got = fmt.Sprint(r[0])
+		}
+		if err != nil || got != want {
+			viols = append(viols, fmt.Sprintf("reverse call %s(%v): local call returns %q, the reverse call returned %q, error %v", p.name, p.args, want, got, err))
+		}
 	}
 	return
 }
